@@ -13,18 +13,20 @@ use std::collections::BTreeMap;
 enum Val {
     Num(f64),
     Str(String),
+    Arr(Vec<f64>),
 }
 impl Val {
     fn num(&self) -> f64 {
         match self {
             Val::Num(n) => *n,
-            Val::Str(_) => f64::NAN,
+            Val::Str(_) | Val::Arr(_) => f64::NAN,
         }
     }
     fn index_text(&self) -> String {
         match self {
             Val::Num(n) => fmt_num(*n),
             Val::Str(s) => s.clone(),
+            Val::Arr(_) => "<array>".into(),
         }
     }
 }
@@ -39,6 +41,8 @@ enum I {
     Var(&'static str),
     Acc(&'static str, Vec<I>),
     Len(&'static str),
+    /// length of an array bound by an iteration (a row of a matrix)
+    LenVar(&'static str),
     Add(Box<I>, Box<I>),
     Mul(Box<I>, Box<I>),
 }
@@ -64,6 +68,10 @@ enum It {
     NeighEdges(&'static str, &'static str, &'static str),
     NeighEdgesOf(&'static str, &'static str, &'static str, &'static str),
     SetOp(&'static str, &'static str, &'static str, &'static str),
+    /// the rows of a matrix, each bound as an array
+    Rows(&'static str, &'static str),
+    /// the elements of an array bound by an outer iteration
+    InVar(&'static str, &'static str),
 }
 
 #[derive(Clone, Debug, Default)]
@@ -85,6 +93,7 @@ impl I {
             I::Var(v) => v.to_string(),
             I::Acc(a, idx) => format!("{a}{}", idx.iter().map(|i| format!("[{}]", i.text())).collect::<String>()),
             I::Len(a) => format!("len({a})"),
+            I::LenVar(a) => format!("len({a})"),
             I::Add(a, b) => format!("({} + {})", a.text(), b.text()),
             I::Mul(a, b) => format!("({} * {})", a.text(), b.text()),
         }
@@ -114,6 +123,10 @@ impl I {
                 }
             }
             I::Len(a) => Val::Num(d.arrays.get(a).map(|v| v.len()).or(d.matrices.get(a).map(|m| m.len())).ok_or("unknown")? as f64),
+            I::LenVar(a) => match lookup(env, a) {
+                Some(Val::Arr(v)) => Val::Num(v.len() as f64),
+                _ => return Err(format!("{a} is not a bound array")),
+            },
             I::Add(a, b) => Val::Num(a.eval(env, d)?.num() + b.eval(env, d)?.num()),
             I::Mul(a, b) => Val::Num(a.eval(env, d)?.num() * b.eval(env, d)?.num()),
         })
@@ -135,6 +148,8 @@ impl It {
             It::NeighEdges(u, v, n) => format!("({u}, {v}) in neigh_edges({n})"),
             It::NeighEdgesOf(u, v, name, g) => format!("({u}, {v}) in neigh_edges_of(\"{name}\", {g})"),
             It::SetOp(v, op, a, b) => format!("{v} in {op}({a}, {b})"),
+            It::Rows(r, m) => format!("{r} in {m}"),
+            It::InVar(v, r) => format!("{v} in {r}"),
         }
     }
     /// the reference iteration semantics: the bindings of each iteration, in order
@@ -210,6 +225,11 @@ impl It {
                 }
                 out.into_iter().map(|x| vec![(*v, Val::Num(x))]).collect()
             }
+            It::Rows(r, m) => d.matrices.get(m).ok_or("unknown matrix")?.iter().map(|row| vec![(*r, Val::Arr(row.clone()))]).collect(),
+            It::InVar(v, r) => match lookup(env, r) {
+                Some(Val::Arr(a)) => a.iter().map(|x| vec![(*v, Val::Num(*x))]).collect(),
+                _ => return Err(format!("{r} is not a bound array")),
+            },
         })
     }
 }
@@ -420,6 +440,9 @@ fn templates() -> Vec<Prog> {
     p("sum-set-union", agg("sum", vec![It::SetOp("v", "union", "A", "B")], mul(iv("v"), E::V("z"))), vec![le(E::V("z"), 1.0)], base_decls());
     p("sum-set-intersection", add(E::V("z"), agg("sum", vec![It::SetOp("v", "intersection", "A", "B")], mul(iv("v"), E::V("z")))), vec![le(E::V("z"), 1.0)], base_decls());
     p("sum-set-difference", add(E::V("z"), agg("sum", vec![It::SetOp("v", "difference", "A", "B")], mul(iv("v"), E::V("z")))), vec![le(E::V("z"), 1.0)], base_decls());
+    // nested arrays: rows bound as arrays, then iterated
+    p("rows-of-matrix", add(E::V("z"), agg("sum", vec![It::Rows("row", "M"), It::InVar("v", "row")], mul(iv("v"), E::V("z")))), vec![le(E::V("z"), 1.0)], base_decls());
+    p("forall-rows-len", E::V("z"), vec![Cons { name: None, lhs: add(E::V("z"), agg("sum", vec![It::InVar("v", "row")], mul(iv("v"), E::V("z")))), rel: "<=", rhs: E::K(I::LenVar("row")), iters: vec![It::Rows("row", "M")] }], base_decls());
     // other aggregates
     p("prod-of-data", mul(I::Lit(1.0), add(E::V("z"), mul(lit(0.0), E::V("z")))), vec![Cons { name: None, lhs: mul(lit(1.0), E::V("z")), rel: "<=", rhs: agg("prod", vec![It::In("v", "A")], E::K(iv("v"))), iters: vec![] }], base_decls());
     p("prod-empty-is-one", E::V("z"), vec![Cons { name: None, lhs: E::V("z"), rel: "<=", rhs: agg("prod", vec![It::Range("i", lit(0.0), lit(0.0), false)], E::K(iv("i"))), iters: vec![] }], base_decls());
@@ -465,6 +488,8 @@ fn data_shapes() -> Vec<(&'static str, Data)> {
         ("fractional-repeated", mk(vec![0.5, 2.5, 2.5], vec![0.5, 2.0, 7.0, 9.0], graph(vec![("A", vec![("B", None), ("A", None)]), ("B", vec![("A", None)]), ("C", vec![])]))),
         ("singleton", mk(vec![4.0], vec![4.0], graph(vec![("A", vec![])]))),
         ("two-and-shared", mk(vec![2.0, 0.0], vec![0.0, 2.0, 2.0], graph(vec![("A", vec![("B", Some(0.5))]), ("B", vec![])]))),
+        // an empty array, and a graph whose only node has no edges: every aggregation over them is empty
+        ("empty-A", mk(vec![], vec![3.0], graph(vec![("A", vec![])]))),
     ]
 }
 
@@ -541,9 +566,10 @@ fn range_grid(i: u64) -> Prog {
 /// family N: every ordered pair (outer iterator kind, inner iterator kind) in three positions
 const PAIR_POSITIONS: [&str; 3] = ["sum", "forall", "forall-sum"];
 const OUTER_KINDS: usize = 7;
+const N_SHAPES: usize = 5;
 const INNER_KINDS: usize = 8;
 fn pair_size() -> u64 {
-    (OUTER_KINDS * INNER_KINDS * PAIR_POSITIONS.len() * 4) as u64
+    (OUTER_KINDS * INNER_KINDS * PAIR_POSITIONS.len() * N_SHAPES) as u64
 }
 /// (iterator, numeric variables it binds)
 fn outer_kind(k: usize) -> (It, Vec<&'static str>, &'static str) {
@@ -581,7 +607,7 @@ fn pair_prog(i: u64) -> Option<(Prog, usize)> {
         i /= n as u64;
         d
     };
-    let shape = digit(4);
+    let shape = digit(N_SHAPES);
     let pos = digit(PAIR_POSITIONS.len());
     let ik = digit(INNER_KINDS);
     let ok = digit(OUTER_KINDS);
@@ -606,6 +632,59 @@ fn pair_prog(i: u64) -> Option<(Prog, usize)> {
         _ => Prog { name, sense: "min", obj: E::V("z"), cons: vec![le1(add(E::V("z"), agg("sum", vec![inner], mul(k, E::V("z")))), vec![outer]), le1(E::V("z"), vec![])], decls: vec![], scalars: sc },
     };
     Some((prog, shape))
+}
+
+/// family N3 (thorough): every triple of independent iterator kinds nested three deep
+fn leak(s: String) -> &'static str {
+    Box::leak(s.into_boxed_str())
+}
+fn plain_kind(k: usize, level: usize) -> (It, Vec<&'static str>, &'static str) {
+    let n = |base: &str| leak(format!("{base}{level}"));
+    let (a, b) = if level % 2 == 0 { ("A", "B") } else { ("B", "A") };
+    match k {
+        0 => (It::Range(n("i"), I::Lit(0.0), I::Len(a), false), vec![n("i")], "range"),
+        1 => (It::In(n("v"), a), vec![n("v")], "array"),
+        2 => (It::Enum(n("v"), n("i"), a), vec![n("v"), n("i")], "enumerate"),
+        3 => (It::Zip(n("p"), n("q"), a, b), vec![n("p"), n("q")], "zip"),
+        4 => (It::Edges(n("u"), n("t"), Some(n("w")), "G"), vec![n("w")], "edges"),
+        _ => (It::SetOp(n("v"), if level % 2 == 0 { "union" } else { "intersection" }, a, b), vec![n("v")], "set-op"),
+    }
+}
+const PLAIN_KINDS: usize = 6;
+fn triple_size() -> u64 {
+    (PLAIN_KINDS * PLAIN_KINDS * PLAIN_KINDS * 2 * N_SHAPES) as u64
+}
+fn triple_prog(i: u64) -> (Prog, usize) {
+    let mut i = i;
+    let mut digit = |n: usize| {
+        let d = (i % n as u64) as usize;
+        i /= n as u64;
+        d
+    };
+    let shape = digit(N_SHAPES);
+    let forall = digit(2) == 1;
+    let (k3, k2, k1) = (digit(PLAIN_KINDS), digit(PLAIN_KINDS), digit(PLAIN_KINDS));
+    let (it1, n1, name1) = plain_kind(k1, 0);
+    let (it2, n2, name2) = plain_kind(k2, 1);
+    let (it3, n3, name3) = plain_kind(k3, 2);
+    let mut k: Option<I> = None;
+    for (n, v) in n1.iter().chain(n2.iter()).chain(n3.iter()).enumerate() {
+        let term = I::Mul(Box::new(I::Lit((n + 1) as f64)), Box::new(I::Var(v)));
+        k = Some(match k {
+            None => term,
+            Some(prev) => I::Add(Box::new(prev), Box::new(term)),
+        });
+    }
+    let k = k.unwrap();
+    let name = leak(format!("triple:{}:{name1}>{name2}>{name3}", if forall { "forall" } else { "sum" }));
+    let le1 = |lhs: E, iters: Vec<It>| Cons { name: None, lhs, rel: "<=", rhs: E::K(I::Lit(1.0)), iters };
+    let sc = vec![("z", "Real(-4, 4)")];
+    let prog = if forall {
+        Prog { name, sense: "min", obj: E::V("z"), cons: vec![le1(mul(k, E::V("z")), vec![it1, it2, it3]), le1(E::V("z"), vec![])], decls: vec![], scalars: sc }
+    } else {
+        Prog { name, sense: "min", obj: add(E::V("z"), agg("sum", vec![it1, it2, it3], mul(k, E::V("z")))), cons: vec![le1(E::V("z"), vec![])], decls: vec![], scalars: sc }
+    };
+    (prog, shape)
 }
 
 fn check_prog(t: &Prog, dname: &str, d: &Data, l: &mut Local) {
@@ -643,7 +722,7 @@ fn check_prog(t: &Prog, dname: &str, d: &Data, l: &mut Local) {
 pub fn run(mut run: Run) -> ! {
     crate::core::silence_panics();
     let n = (templates().len() * data_shapes().len()) as u64;
-    run.rule = "family P: 34 program templates (exclusive/inclusive/negative/descending/empty/length-dependent ranges, array iteration, enumerate, zip of unequal lengths, dependent nested iterators, matrix access, union/intersection/difference, prod incl. empty, avg/min/max incl. empty ones that must be rejected, for-quantified constraints with indexed names, two iterators, index expressions x_{i+1} and x_{A[i]}, two-index families incl. the collision-prone x_1_23 / x_12_3, graph edges with weights, nodes, neigh_edges, neigh_edges_of, declarations over ranges / array values / edges) x 4 data shapes (3 elements; fractional and repeated values with self-loop and unweighted graph; singletons with isolated node; zeros and shared elements); family R: every range a..b and a..=b with a, b in -3..=3 as sum iterator, for-quantifier of a constraint, iterator of a declaration, and inner iterator whose start depends on the outer variable (784 programs); family N: every ordered pair (outer, inner) of iterator kinds {range, array, enumerate, zip, weighted edges, union/difference, nodes, dependent range, neigh_edges of the outer node} as nested sum, as nested for-quantifier (row order) and as sum inside a for-quantified row, x the 4 data shapes, with a coefficient that weights every bound variable differently; each pair (program with constructs, reference unrolling) is compiled and the linear models compared row for row in order; distinct = program texts; non-trivial = both compile".into();
+    run.rule = "family P: 36 program templates (exclusive/inclusive/negative/descending/empty/length-dependent ranges, array iteration, enumerate, zip of unequal lengths, dependent nested iterators, matrix access, iteration over the rows of a nested array and over each bound row, union/intersection/difference, prod incl. empty, avg/min/max incl. empty ones that must be rejected, for-quantified constraints with indexed names, two iterators, index expressions x_{i+1} and x_{A[i]}, two-index families incl. the collision-prone x_1_23 / x_12_3, graph edges with weights, nodes, neigh_edges, neigh_edges_of, declarations over ranges / array values / edges) x 5 data shapes (3 elements; fractional and repeated values with self-loop and unweighted graph; singletons with isolated node; zeros and shared elements; an empty array with an edgeless graph); family R: every range a..b and a..=b with a, b in -3..=3 as sum iterator, for-quantifier of a constraint, iterator of a declaration, and inner iterator whose start depends on the outer variable (784 programs); family N: every ordered pair (outer, inner) of iterator kinds {range, array, enumerate, zip, weighted edges, union/difference, nodes, dependent range, neigh_edges of the outer node} as nested sum, as nested for-quantifier (row order) and as sum inside a for-quantified row, x the 5 data shapes, with a coefficient that weights every bound variable differently; family N3: every triple of independent iterator kinds nested three deep as sum and as for-quantifier x the 5 data shapes; each pair (program with constructs, reference unrolling) is compiled and the linear models compared row for row in order; distinct = program texts; non-trivial = both compile".into();
     run.assume("reference unroller implementing the documented iteration semantics (textual order of data, zip stops at the shorter array, enumerate counts from 0, exclusive/inclusive ranges, descending ranges empty, empty sum = 0, empty prod = 1, empty avg/min/max rejected, union keeps first occurrences in order, intersection and difference filter the first array); all data values are small dyadic numbers so coefficient sums are exact and models are compared with zero tolerance");
     run.family("P-template-x-data", n, check);
     run.family("R-range-grid", range_grid_size(), |i, l| {
@@ -656,6 +735,11 @@ pub fn run(mut run: Run) -> ! {
             let ds = data_shapes();
             check_prog(&p, ds[shape].0, &ds[shape].1, l);
         }
+    });
+    run.family("N3-iterator-triples", triple_size(), |i, l| {
+        let (p, shape) = triple_prog(i);
+        let ds = data_shapes();
+        check_prog(&p, ds[shape].0, &ds[shape].1, l);
     });
     run.require("both-compiled");
     run.require("both-rejected");
